@@ -2,6 +2,7 @@ package main
 
 import (
 	"flag"
+	"google.golang.org/protobuf/proto"
 	"math/rand"
 	"strings"
 	"time"
@@ -162,6 +163,21 @@ func nodeRun(args []string) error {
 				emit(b, a, "perturb-rev"+pb[k].path)
 			}
 		}
+		// the SAME two objects compared, changed in place, compared again (and changed back): an answer must not be
+		// remembered across a change of the value
+		if len(pts) > 0 {
+			b := cloneNode(a)
+			emit(a, b, "inplace-before")
+			saved := cloneNode(b)
+			var pb []mutPoint
+			mutPoints(b.ProtoReflect(), "", &pb)
+			k := r.Intn(len(pb))
+			pb[k].do()
+			emit(a, b, "inplace-changed"+pb[k].path)
+			proto.Reset(b)
+			proto.Merge(b, saved)
+			emit(a, b, "inplace-restored")
+		}
 		// sub-second change of a date: not a difference
 		if a.ReleaseDate != nil {
 			b := cloneNode(a)
@@ -294,6 +310,16 @@ func genEdgeListEq(r *rand.Rand, w *ndWriter, sid *int, n int) {
 			p := pts[r.Intn(len(pts))]
 			p.do()
 			emitListEq(w, sid, a, b, "perturb"+p.path)
+		}
+		// the same two list objects: compared, one changed in place, compared again
+		c := clone(a)
+		emitListEq(w, sid, a, c, "inplace-before")
+		var pc []mutPoint
+		mutPoints(c.ProtoReflect(), "", &pc)
+		if len(pc) > 0 {
+			p := pc[r.Intn(len(pc))]
+			p.do()
+			emitListEq(w, sid, a, c, "inplace-changed"+p.path)
 		}
 	}
 }
